@@ -7,6 +7,10 @@ SIGTERM or SIGINT at a random offset while traffic is in flight, and check
   both cache files are complete JSON documents holding every template sent >= 300 ms before the signal,
 then restart on the same cache files, send data only (no templates) and require it to be decoded at
 once (the published JSON appears in the verbose log), and stop again.
+
+Further cycles of C15: stalled stops (the process frozen during the grace period, stall_cycle), early stops (the signal
+arrives while run() is still loading a large cache file of the previous run, early_stop_cycle) and same-PID restarts
+(stop/start in PID namespaces with the pid file kept, same_pid_cycle).
 """
 import json, os, random, signal, socket, struct, subprocess, sys, time, shutil, urllib.request
 import check as C
@@ -96,8 +100,13 @@ def data_set(tid, fields, rng, nrec=2, pad=None):
 
 
 class Vflow:
-    def __init__(self, wdir, ports, binary, workers=4, extra_args=()):
+    def __init__(self, wdir, ports, binary, workers=4, extra_args=(), pidns=False, ready=None):
+        """pidns: the collector is started the way the shipped docker-compose entrypoint starts it (`/bin/sh -c "sleep … &&
+        vflow"`) inside a PID namespace of its own (unshare --pid --fork --mount-proc): it gets the same small PID on every
+        start, as in a container. ready: a marker (bytes) of the log; start() then returns as soon as that line has been
+        logged instead of waiting for all four listeners."""
         self.wdir, self.ports, self.binary, self.workers, self.extra_args = wdir, ports, binary, workers, list(extra_args)
+        self.pidns, self.ready = pidns, ready
         self.proc = None
         self.errf = None
 
@@ -134,6 +143,8 @@ class Vflow:
                 "-netflow9-tpl-cache-file", os.path.join(self.wdir, "nf9.cache"),
                 "-producer-enabled=false", "-dynamic-workers=false", "-verbose=true", "-ipfix-rpc-enabled=false",
                 "-ipfix-workers", str(self.workers), "-netflow9-workers", str(self.workers), "-netflow5-workers", "2", "-sflow-workers", "2"] + self.extra_args
+        if self.pidns:
+            args = unshare_cmd() + ["/bin/sh", "-c", 'sleep 0.2 && "$0" "$@"'] + args
         self.proc = subprocess.Popen(args, stdout=self.errf, stderr=self.errf, cwd=self.wdir)
         # ready when the four UDP sockets are bound ("… is running (UDP: listening …" is logged after ListenUDP)
         t0 = time.time()
@@ -141,12 +152,36 @@ class Vflow:
             if self.proc.poll() is not None:
                 return False
             try:
-                if open(self.errpath, "rb").read().count(b"is running (UDP") >= 4:
+                lg = open(self.errpath, "rb").read()
+                if (self.ready in lg) if self.ready else (lg.count(b"is running (UDP") >= 4):
                     return True
             except OSError:
                 pass
-            time.sleep(0.03)
+            time.sleep(0.001 if self.ready else 0.03)
         return False
+
+    def pid(self):
+        """the collector's process id as this process sees it (inside a PID namespace: found by its command line)"""
+        if not self.pidns:
+            return self.proc.pid
+        marker = os.path.join(self.wdir, "vflow.pid").encode()
+        for d in os.listdir("/proc"):
+            if d.isdigit():
+                try:
+                    cl = open("/proc/%s/cmdline" % d, "rb").read().split(b"\0")
+                except OSError:
+                    continue
+                if cl and cl[0] == self.binary.encode() and marker in cl:
+                    return int(d)
+        return None
+
+    def send(self, sig):
+        p = self.pid()
+        if p is not None:
+            try:
+                os.kill(p, sig)
+            except ProcessLookupError:
+                pass
 
     def stats(self):
         try:
@@ -159,7 +194,7 @@ class Vflow:
         first shutdown() has logged that it is stopping (at the latest 100 ms after the signal) and thawed (SIGCONT)
         `stall_s` seconds later: what a VM pause, a cgroup freeze or a debugger does to a collector that is shutting down."""
         t0 = time.time()
-        self.proc.send_signal(sig)
+        self.send(sig)
         if stall_s:
             while time.time() - t0 < 0.1:
                 try:
@@ -168,9 +203,9 @@ class Vflow:
                 except OSError:
                     pass
                 time.sleep(0.0005)
-            self.proc.send_signal(signal.SIGSTOP)
+            self.send(signal.SIGSTOP)
             time.sleep(stall_s)
-            self.proc.send_signal(signal.SIGCONT)
+            self.send(signal.SIGCONT)
         try:
             rc = self.proc.wait(timeout=15)
         except subprocess.TimeoutExpired:
@@ -519,14 +554,281 @@ def stall_cycle(n, seed, binary, params=None):
             vf.proc.kill()
         shutil.rmtree(wdir, ignore_errors=True)
 
+# ---------------------------------------------------------------- early stops (F27) and same-PID restarts (F28)
+
+import threading
+_UNSHARE = []
+_BIG = {}
+_BIG_LOCK = {"ipfix": threading.Lock(), "nf9": threading.Lock()}
+CACHE_FILE = {"ipfix": "ipfix.cache", "nf9": "nf9.cache"}
+RUNNING_LINE = {"ipfix": b"ipfix is running (UDP", "nf9": b"netflow v9 is running (UDP"}
+
+
+def unshare_cmd():
+    """the command prefix that runs a program as in a container: a PID namespace of its own with its own /proc
+    ([] when this machine cannot do that: the same-PID cycles then give no verdict)"""
+    if not _UNSHARE:
+        cmd = []
+        for opts in (["--kill-child"], []):
+            c = ["unshare", "--pid", "--fork"] + opts + ["--mount-proc"]
+            try:
+                if subprocess.run(c + ["/bin/true"], capture_output=True, timeout=10).returncode == 0:
+                    cmd = c
+                    break
+            except (OSError, subprocess.TimeoutExpired):
+                pass
+        _UNSHARE.append(cmd)
+    return list(_UNSHARE[0])
+
+
+def bigcache_tool(*args):
+    rc, out, err = C.sh(["bash", "-c", 'ulimit -v 16000000; exec "$0" "$@"', C.CORR, "bigcache"] + [str(a) for a in args], env=C.GOENV)
+    kv = dict(w.split("=", 1) for w in out.split() if "=" in w)
+    return rc, kv, (out + err)[-300:]
+
+
+def big_cache_file(proto):
+    """a LARGE template cache file written by the real code (`corr bigcache gen`: thousands of exporters announce ten
+    templates of 40 fields each to the real decoder, the real Dump saves the cache), generated once per run and copied
+    into each cycle's directory. Large = the real GetCache needs well over the 1 s grace period of shutdown() to load
+    it (measured by loading it back; if this machine loads it in under 1.5 s it is generated again, larger).
+    Returns {"path", "templates", "sha256", "load_ms", "octets", "exporters"} or {"error": …}."""
+    with _BIG_LOCK[proto]:
+        if proto not in _BIG:
+            path = os.path.join(C.WORK, "bigcache-%d-%s.cache" % (os.getpid(), proto))
+            ne = {"ipfix": 6000, "nf9": 8000}[proto]
+            info = {"error": "not generated"}
+            for attempt in range(2):
+                rc, kv, txt = bigcache_tool("gen", proto, path, ne, 10, 40)
+                if rc != 0 or "sha256" not in kv:
+                    info = {"error": "corr bigcache gen failed: " + txt}
+                    break
+                info = {"path": path, "templates": int(kv["templates"]), "sha256": kv["sha256"], "load_ms": int(kv["load_ms"]),
+                        "octets": int(kv["octets"]), "exporters": ne}
+                if info["load_ms"] >= 1500:
+                    break
+                ne = min(3 * ne, int(ne * 1900 / max(info["load_ms"], 1)) + 1)
+            _BIG[proto] = info
+        return _BIG[proto]
+
+
+def remove_big_cache_files():
+    for info in _BIG.values():
+        if info.get("path") and os.path.exists(info["path"]):
+            os.remove(info["path"])
+    _BIG.clear()
+
+
+EARLY_OFFSETS = [0, 0.02, 0.1, 1.0]
+
+
+def early_stop_cycle(n, seed, binary, params=None):
+    """a stop shortly after the start (F27): the collector is started on a large, valid template cache file of an earlier
+    run (big_cache_file) and SIGTERM / SIGINT is delivered `offset_s` after its "<protocol> is running (UDP …" line, i.e.
+    while run() is still loading the file (or, with the 1 s offset, shortly after); with `stall_s` the process is also
+    frozen (SIGSTOP) for that long right after the signal (a VM pause: the grace period elapses while nothing runs).
+    Checks: exit status 0, no panic, exit within a few seconds of the end of the load, and the cache file still holds
+    EVERY template it held before the start — it is loaded back with the real GetCache and the multiset of template
+    records is compared (`corr bigcache digest`; the cache keys are never looked at). returns (impl_line, verdict, sample)"""
+    rng = random.Random(seed * 100003 + n * 53 + 29)
+    params = dict(params or {})
+    proto = params.get("proto") or ["ipfix", "nf9"][n % 2]
+    sig = getattr(signal, params.get("signal") or rng.choice(["SIGTERM", "SIGTERM", "SIGINT"]))
+    offset = float(params["offset_s"]) if "offset_s" in params else EARLY_OFFSETS[(n // 2) % len(EARLY_OFFSETS)]
+    stall_s = float(params["stall_s"]) if "stall_s" in params else (1.05 if offset < 0.5 and rng.random() < 0.25 else 0.0)
+    sample = {"pattern": "early-stop", "proto": proto, "signal": sig.name, "offset_s": offset, "stall_s": stall_s}
+    big = big_cache_file(proto)
+    if "error" in big:
+        return "no-big-file", "fail:build " + big["error"], sample
+    sample.update({"cache_file_octets": big["octets"], "templates_in_file": big["templates"], "getcache_ms_measured": big["load_ms"]})
+    wdir = os.path.join(C.WORK, "e2e-early-%d-%d-%d" % (os.getpid(), seed, n))
+    shutil.rmtree(wdir, ignore_errors=True)
+    os.makedirs(wdir)
+    fn = os.path.join(wdir, CACHE_FILE[proto])
+    vf = Vflow(wdir, free_ports(5), binary, extra_args=["-verbose=false"], ready=RUNNING_LINE[proto])
+    try:
+        shutil.copyfile(big["path"], fn)
+        st0 = vf.start()
+        if st0 == "crash":
+            return "start-crashed", "fail:start the collector crashed while starting: " + vf.log()[-300:].replace("\n", " | "), sample
+        if not st0:
+            return "not-started", "", sample
+        if offset:
+            time.sleep(offset)
+        t0 = time.time()
+        vf.send(sig)
+        if stall_s:
+            vf.send(signal.SIGSTOP)
+            time.sleep(stall_s)
+            vf.send(signal.SIGCONT)
+        try:
+            rc = vf.proc.wait(timeout=20 + stall_s)
+        except subprocess.TimeoutExpired:
+            vf.proc.kill()
+            vf.proc.wait()
+            rc = "timeout"
+        lat = time.time() - t0 - stall_s
+        vf.errf.close()
+        log1 = vf.log()
+        sample.update({"exit": rc, "latency_s": round(lat, 2)})
+        what = "%s %.2fs after %r%s" % (sig.name, offset, RUNNING_LINE[proto].decode() + " …", (" and a %.2fs freeze" % stall_s) if stall_s else "")
+        bad = [w for w in ("panic:", "fatal error", "DATA RACE", "send on closed channel") if w in log1]
+        if rc == 1 and "address already in use" in log1:
+            # the signal is sent before all listeners are bound: a port picked by the harness was taken by another process
+            # meanwhile and the collector ended itself with logger.Fatal: no verdict
+            return "not-started", "", sample
+        if rc != 0:
+            return "exit=%s" % rc, "fail:exit status %s after %s (latency %.1fs): %s" % (rc, what, lat, log1[-300:].replace("\n", " | ")), sample
+        if bad:
+            return "exit=0 stderr=%s" % bad[0], "fail:stderr the collector logged %r while stopping: %s" % (bad[0], log1[-300:].replace("\n", " | ")), sample
+        if lat > 6.0 + 2 * big["load_ms"] / 1000.0:
+            return "exit=0 slow", "fail:latency exit took %.1fs after %s (loading the file alone takes %.1fs)" % (lat, what, big["load_ms"] / 1000.0), sample
+        # the cache file of the OTHER protocol did not exist; this one must still hold what it held
+        try:
+            size = os.path.getsize(fn)
+            head = open(fn, "rb").read(60).decode("utf-8", "replace")
+        except OSError as e:
+            return "exit=0 cache-gone", "fail:wiped the cache file %s is gone after %s: %r" % (CACHE_FILE[proto], what, e), sample
+        rc2, kv, txt = bigcache_tool("digest", proto, fn)
+        if rc2 != 0 or "templates" not in kv:
+            return "digest-failed", "", dict(sample, digest_error=txt)
+        sample.update({"templates_after_stop": int(kv["templates"]), "cache_file_octets_after_stop": size})
+        if int(kv["templates"]) != big["templates"] or kv["sha256"] != big["sha256"]:
+            return "exit=0 templates-lost", ("fail:wiped the cache file %s held %d templates (%d octets) of the previous run when the collector was "
+                                             "started; after %s and exit status 0 it holds %d (loaded with the real GetCache; the file is now %d octets: %s%s)"
+                                             % (CACHE_FILE[proto], big["templates"], big["octets"], what, int(kv["templates"]), size, head, "…" if size > 60 else "")), sample
+        return "exited=1 panic=0 templates-kept=1", "ok", sample
+    finally:
+        if vf.proc and vf.proc.poll() is None:
+            vf.proc.kill()
+        shutil.rmtree(wdir, ignore_errors=True)
+
+
+def same_pid_cycle(n, seed, binary, params=None):
+    """repeated stop/start where every start gets the same process id (F28), as in a container: (0) outside any namespace
+    a second instance on the pid file of a running one must still be refused; then the collector is started the way the
+    shipped docker-compose entrypoint starts it, in a PID namespace of its own (unshare --pid --fork --mount-proc), (1)
+    learns templates and is stopped, (2) is started again in a fresh PID namespace with the pid file of run 1 kept —
+    which records the very PID the new process has: it must come up and decode data for the templates of run 1 at once.
+    No verdict when this machine cannot create PID namespaces. returns (impl_line, verdict, sample)"""
+    rng = random.Random(seed * 100003 + n * 71 + 5)
+    sample = {"pattern": "same-pid"}
+    if not unshare_cmd():
+        return "no-unshare", "", dict(sample, note="unshare --pid --fork --mount-proc is not available here: no verdict")
+    sig = getattr(signal, (params or {}).get("signal") or rng.choice(["SIGTERM", "SIGTERM", "SIGINT"]))
+    sample["signal"] = sig.name
+    wdir = os.path.join(C.WORK, "e2e-samepid-%d-%d-%d" % (os.getpid(), seed, n))
+    shutil.rmtree(wdir, ignore_errors=True)
+    os.makedirs(wdir)
+    vfs = []
+    try:
+        # (0) a genuinely running instance still makes a second start on its pid file fail
+        a = Vflow(wdir, free_ports(5), binary)
+        vfs.append(a)
+        st = a.start()
+        if st is not True:
+            return "not-started", "" if st is False else "fail:start the collector crashed while starting: " + a.log()[-300:].replace("\n", " | "), sample
+        b = Vflow(wdir, free_ports(5), binary)
+        vfs.append(b)
+        stb = b.start(tries=1)
+        logb = b.log()
+        if stb is True:
+            b.stop(signal.SIGKILL)
+            a.stop(signal.SIGKILL)
+            return "second-instance-started", "fail:second-instance a second collector started on the pid file of a running one (pid %s)" % open(os.path.join(wdir, "vflow.pid")).read(), sample
+        sample["second_instance_refused"] = "already is running" in logb
+        rc, lat = a.stop(signal.SIGTERM)
+        if rc != 0:
+            return "exit=%s" % rc, "fail:exit status %s stopping the first instance: %s" % (rc, a.log()[-300:].replace("\n", " | ")), sample
+        if not sample["second_instance_refused"]:
+            return "second-instance-unclear", "", sample
+        # (1) first run in a PID namespace: learn templates, stop
+        vf = Vflow(wdir, free_ports(5), binary, pidns=True)
+        vfs.append(vf)
+        st = vf.start()
+        if st is not True:
+            if "already is running" in vf.log():
+                return "run1-refused", "", dict(sample, note="the pid of the host-namespace instance exists in the new namespace")
+            return "not-started", "" if st is False else "fail:start the collector crashed while starting: " + vf.log()[-300:].replace("\n", " | "), sample
+        sample["pid_run1"] = open(os.path.join(wdir, "vflow.pid")).read()
+        s = sender(2 + rng.randrange(5))
+        tpls = []
+        for k in range(rng.randint(2, 6)):
+            proto = ["ipfix", "nf9"][k % 2]
+            fields = tpl_fields(rng)
+            tid = 256 + k
+            s.sendto((ipfix_msg if proto == "ipfix" else v9_msg)([tpl_set(proto, tid, fields)], k + 1), ("127.0.0.1", vf.ports[0] if proto == "ipfix" else vf.ports[3]))
+            tpls.append((proto, tid, fields))
+        want = {"IPFIX": sum(1 for t in tpls if t[0] == "ipfix"), "NetflowV9": sum(1 for t in tpls if t[0] == "nf9")}
+        t_ack = time.time()
+        while time.time() - t_ack < 5:
+            stt = vf.stats()
+            try:
+                if all(stt[k]["DecodedCount"] >= v for k, v in want.items()):
+                    break
+            except (KeyError, TypeError):
+                break
+            time.sleep(0.02)
+        time.sleep(0.3)
+        rc, lat = vf.stop(sig)
+        sample.update({"templates": len(tpls), "exit_run1": rc})
+        if rc != 0:
+            return "exit=%s" % rc, "fail:exit status %s after %s (run 1 in the PID namespace): %s" % (rc, sig.name, vf.log()[-300:].replace("\n", " | ")), sample
+        # (2) second run: fresh PID namespace, same pid file, same cache files
+        vf2 = Vflow(wdir, free_ports(5), binary, pidns=True)
+        vfs.append(vf2)
+        st = vf2.start()
+        log2 = vf2.log()
+        if st is not True:
+            if "already is running" in log2:
+                return "restart-refused", ("fail:restart refused the collector, stopped cleanly (exit status 0) and started again the same way in a fresh PID "
+                                           "namespace (`/bin/sh -c \"sleep … && vflow …\"`, the shipped docker-compose entrypoint), exits with status %s: %s — the "
+                                           "pid file left by the previous run records PID %s, which is the new process's own PID"
+                                           % (vf2.proc.returncode, log2.strip().split("\n")[-1][-120:], sample["pid_run1"])), sample
+            return "not-restarted", "" if st is False else "fail:restart the collector crashed when started again: " + log2[-300:].replace("\n", " | "), sample
+        sample["pid_run2"] = open(os.path.join(wdir, "vflow.pid")).read()
+        for k, (proto, tid, fields) in enumerate(tpls):
+            s.sendto((ipfix_msg if proto == "ipfix" else v9_msg)([data_set(tid, fields, rng)], 100 + k), ("127.0.0.1", vf2.ports[0] if proto == "ipfix" else vf2.ports[3]))
+        t_probe = time.time()
+        while time.time() - t_probe < 5:
+            lg = vf2.log()
+            if lg.count('"DataSets":[[') + lg.count("unknown ipfix template") + lg.count("unknown netflow template") >= len(tpls):
+                break
+            time.sleep(0.05)
+        stt = vf2.stats()
+        rc2, lat2 = vf2.stop(signal.SIGTERM)
+        s.close()
+        log2 = vf2.log()
+        unknown = log2.count("unknown ipfix template") + log2.count("unknown netflow template")
+        decoded = log2.count('"DataSets":[[')
+        sample.update({"exit_run2": rc2, "decoded_after_restart": decoded})
+        if rc2 != 0 or any(w in log2 for w in ("panic:", "fatal error")):
+            return "exit2=%s" % rc2, "fail:exit second stop: status %s: %s" % (rc2, log2[-300:].replace("\n", " | ")), sample
+        try:
+            received = stt["IPFIX"]["UDPCount"] + stt["NetflowV9"]["UDPCount"]
+        except (KeyError, TypeError):
+            received = None
+        if not unknown and decoded < len(tpls) and (received is None or received < len(tpls)):
+            return "probes-lost", "", sample
+        if unknown or decoded < len(tpls):
+            return "exit=0 restart-undecoded", "fail:restart %d data datagrams sent without templates after the same-PID restart, %d decoded, %d reported unknown" % (len(tpls), decoded, unknown), sample
+        return "restarted=1 same-pid=%d decoded=1" % (sample["pid_run1"] == sample["pid_run2"]), "ok", sample
+    finally:
+        for v in vfs:
+            if v.proc and v.proc.poll() is None:
+                v.proc.kill()
+                v.proc.wait()
+        shutil.rmtree(wdir, ignore_errors=True)
+
 
 class E2EResult(C.CorrResult):
     pass
 
 
-def corpus_stalls(pid):
+def corpus_stalls(pid, which="stall"):
     """corpus/<pid>/e2e-shutdown--*.txt: one JSON object per line = the parameters of a stalled stop that once failed
-    (`repeat`: how many times it is run; a stall hits the race in roughly one stop out of four)"""
+    (`repeat`: how many times it is run; a stall hits the race in roughly one stop out of four). A line with a key
+    `cycle` belongs to another kind of cycle (`early-stop`, `same-pid`) and is returned only when asked for by name"""
     d = os.path.join(C.ROOT, "corpus", pid)
     out = []
     if os.path.isdir(d):
@@ -535,7 +837,7 @@ def corpus_stalls(pid):
                 for l in open(os.path.join(d, fn)):
                     if l.strip() and not l.startswith("#"):
                         out.append(json.loads(l))
-    return out
+    return [w for w in out if w.get("cycle", "stall") == which]
 
 
 def shutdown_cycles(pid, tier, seed):
@@ -580,6 +882,24 @@ def shutdown_cycles(pid, tier, seed):
             if len(r.samples) < 3:
                 r.samples.append({"case": case, "impl": line})
 
+    # early stops (F27: SIGTERM / SIGINT while run() is still loading a large cache file of the previous run) and same-PID
+    # restarts (F28: stop/start in a PID namespace, pid file kept): the witnesses of corpus/C15 first, then generated ones.
+    # They run three at a time next to the other cycles (each early stop loads > 100 MB of JSON twice)
+    n_early, n_samepid = (2, 1) if tier == "quick" else (32, 6)
+    ex2 = cf.ThreadPoolExecutor(max_workers=3)
+    fe, fp = [], []
+    early_w = [dict(w, repeat=None) for w in corpus_stalls(pid, "early-stop") for _ in range(int(w.get("repeat", 1)))]
+    for i, w in enumerate([None] * n_early + early_w):
+        args = (i if w is None else 1000 + i - n_early, seed, binary, w)
+        f = ex2.submit(early_stop_cycle, *args)
+        f.rerun = (early_stop_cycle, args)
+        fe.append(f)
+    samepid_w = [dict(w, repeat=None) for w in corpus_stalls(pid, "same-pid") for _ in range(int(w.get("repeat", 1)))]
+    for i, w in enumerate([None] * n_samepid + samepid_w):
+        args = (i if w is None else 1000 + i - n_samepid, seed, binary, w)
+        f = ex2.submit(same_pid_cycle, *args)
+        f.rerun = (same_pid_cycle, args)
+        fp.append(f)
     with cf.ThreadPoolExecutor(max_workers=6 if tier == "quick" else 12) as ex:
         forced = ["lull", "burst", "lull", "steady", "idle", "burst"]   # the quick tier covers every pattern
         fc = []
@@ -602,7 +922,16 @@ def shutdown_cycles(pid, tier, seed):
             fs.append(f)
         collect("stalled-stop-witness", fw)
         collect("stalled-stop", fs)
-    r.summary = {"cycles": n, "stalled_stops": n_stall + len(witnesses), "ok": r.oracle_ok, "failed": len(r.oracle_fail),
+    collect("early-stop", fe[:n_early])
+    collect("early-stop-witness", fe[n_early:])
+    collect("same-pid", fp[:n_samepid])
+    collect("same-pid-witness", fp[n_samepid:])
+    ex2.shutdown()
+    big = {k: {x: v.get(x) for x in ("octets", "templates", "load_ms", "exporters", "error") if x in v} for k, v in _BIG.items()}
+    remove_big_cache_files()
+    r.summary = {"cycles": n, "stalled_stops": n_stall + len(witnesses), "early_stops": len(fe), "same_pid_restarts": len(fp),
+                 "pid_namespaces": bool(unshare_cmd()), "big_cache_files": big,
+                 "ok": r.oracle_ok, "failed": len(r.oracle_fail),
                  "max_exit_latency_s": max(lat) if lat else None, "distribution": r.stats}
     return r
 
@@ -845,6 +1174,11 @@ def replay(d):
     elif tag == "stalled-stop-witness":
         ws = [dict(w, repeat=None) for w in corpus_stalls(d.get("property", "C15")) for _ in range(int(w.get("repeat", 1)))]
         res = stall_cycle(1000 + n, seed, binary, ws[n] if n < len(ws) else None)
+    elif tag in ("early-stop", "early-stop-witness"):
+        res = early_stop_cycle(n if tag == "early-stop" else 1000 + n, seed, binary, {k: sample[k] for k in ("proto", "signal", "offset_s", "stall_s") if k in sample})
+        remove_big_cache_files()
+    elif tag in ("same-pid", "same-pid-witness"):
+        res = same_pid_cycle(n if tag == "same-pid" else 1000 + n, seed, binary, {k: sample[k] for k in ("signal",) if k in sample})
     elif tag == "startup-cycle":
         res = startup_cycle(n, seed, binary)
     elif tag == "redefinition-cycle":
